@@ -36,8 +36,8 @@ def remove_task(spec, tn):
         # constrain other tasks' flags - the problem "with tn deleted" is not defined by deletion alone
         if c["kind"] in ("OptionalTaskForceSchedule", "OptionalTaskConditionSchedule") and c.get("task") == tn:
             return None
-        if c["kind"] == "OptionalTasksDependency" and c.get("t2") == tn:
-            return None
+        if c["kind"] == "OptionalTasksDependency" and tn in (c.get("t1"), c.get("t2")):
+            return None      # implication (docs) or equivalence (docstring): band
         if c["kind"] == "ForceScheduleNOptionalTasks" and tn in c.get("tasks", []):
             rest = [x for x in c["tasks"] if x != tn]
             if not rest:
@@ -71,12 +71,26 @@ def remove_task(spec, tn):
 
 
 def make_mandatory(spec, tn):
+    """the same problem with tn declared mandatory; None when a scheduling rule about tn cannot be carried over"""
     s = copy.deepcopy(spec)
     for t in s["tasks"]:
         if t["name"] == tn:
             t.pop("optional", None)
-    s["constraints"] = [c for c in s["constraints"]
-                        if not (c["kind"] in rs.OPTIONAL_RULES and names_task(c, tn))]
+    out = []
+    for c in s["constraints"]:
+        k = c["kind"]
+        if k == "OptionalTaskForceSchedule" and c.get("task") == tn:
+            if c.get("value") is True:
+                continue          # trivially true for a mandatory task
+            return None
+        if k == "OptionalTaskConditionSchedule" and c.get("task") == tn:
+            return None
+        if k == "OptionalTasksDependency" and tn in (c.get("t1"), c.get("t2")):
+            return None
+        if k == "ForceScheduleNOptionalTasks" and tn in c.get("tasks", []):
+            return None
+        out.append(c)
+    s["constraints"] = out
     return s
 
 
@@ -199,6 +213,8 @@ def run_diff(case):
         return acc.result()
     mand = make_mandatory(spec, tn)
     feats = o_features(spec, tn)
+    if mand is None:
+        acc.count(acc.outcomes, "not_comparable:scheduling_rule_on_the_task")
     # side 1: unscheduled == deleted
     c1 = [c for c in cd.enumerate_candidates(removed, wide=False, limit=20000, rng=rng)]
     if len(c1) > case["limit"]:
@@ -225,7 +241,7 @@ def run_diff(case):
             acc.inconclusive.append(f"{a}/{b}")
     # side 2: scheduled == mandatory
     c2 = []
-    for c in cd.enumerate_candidates(mand, wide=False, limit=20000, rng=rng):
+    for c in (cd.enumerate_candidates(mand, wide=False, limit=20000, rng=rng) if mand is not None else []):
         c2.append(c)
     if len(c2) > case["limit"]:
         c2 = rng.sample(c2, case["limit"])
